@@ -174,7 +174,7 @@ class Ctx:
 
     # ---- Hypothesis driver -------------------------------------------
     def hyp(self, fn, *strategies, max_examples, salt=0, shrink=None,
-            **kwstrategies):
+            confirm=None, key=None, shrink_budget=120, **kwstrategies):
         """Run fn over generated examples; collect up to MAX_BUCKETS
         distinct failure buckets (each shrunk by Hypothesis)."""
         import hypothesis
@@ -189,7 +189,35 @@ class Ctx:
                         report_multiple_bugs=False, phases=phases,
                         suppress_health_check=list(HealthCheck),
                         print_blob=False)
+        inner = fn
+        if key is not None:
+            # Shrink budget: after `shrink_budget` evaluations following the
+            # first failure, unseen examples are passed without evaluation
+            # (only stops shrinking early; known failing examples re-raise).
+            state = {"failed": False, "after": 0, "cache": {}}
+
+            from hypothesis import strategies as hst
+            strategies = (hst.tuples(*strategies),)
+            kwargs = {}
+
+            def fn(args):       # pylint: disable=E0102
+                kval = jhash(key(*args))
+                if kval in state["cache"]:
+                    self._last_failure = state["cache"][kval]
+                    raise self._last_failure
+                if state["failed"]:
+                    state["after"] += 1
+                    if state["after"] > shrink_budget:
+                        return
+                try:
+                    inner(*args, **kwargs)
+                except Failure as err:
+                    state["failed"] = True
+                    state["cache"][kval] = err
+                    raise
         for attempt in range(MAX_BUCKETS):
+            if key is not None:
+                state.update(failed=False, after=0)
             test = hypothesis.seed(self.hseed(salt) + attempt)(
                 sett(given(*strategies, **kwstrategies)(fn)))
             self._last_failure = None
@@ -198,11 +226,20 @@ class Ctx:
                 return
             except Failure as err:
                 # Hypothesis re-raises the minimal failing example last.
-                self.record(self._last_failure or err)
+                fail = self._last_failure or err
+                if confirm is not None and not confirm(fail):
+                    # not confirmed by the ground-truth oracle: ignore this
+                    # bucket for the rest of the run (never a violation)
+                    self.reported.add(fail.bucket)
+                    continue
+                self.record(fail)
             except hypothesis.errors.Flaky as err:
                 if self._last_failure is not None:
                     lf = self._last_failure
                     lf.case["flaky"] = True
+                    if confirm is not None and not confirm(lf):
+                        self.reported.add(lf.bucket)
+                        continue
                     self.record(lf)
                 else:
                     raise HarnessError(f"flaky test without failure: {err}")
